@@ -16,6 +16,9 @@ import (
 )
 
 //vsym:stub (github.com/opencontainers/go-digest.Algorithm).Digester = NewDigester
+//vsym:stub (github.com/opencontainers/go-digest.Algorithm).Hash = NewHash
+//vsym:stub (github.com/opencontainers/go-digest.Algorithm).Available = Available
+//vsym:stub github.com/opencontainers/go-digest.NewDigest = NewDigest
 
 // Reader delivers data in pieces of at most Piece bytes; with EOFWithData the last piece comes together with
 // io.EOF (as HTTP bodies, decompressors and iotest.DataErrReader do), otherwise io.EOF follows on its own.
@@ -63,7 +66,10 @@ var seen []string
 // Reset forgets what was digested so far.
 func Reset() { Algs, seen = nil, nil }
 
-type blobHash struct{ data []byte }
+type blobHash struct {
+	data []byte
+	alg  digest.Algorithm
+}
 
 func (h *blobHash) Write(p []byte) (int, error) { h.data = append(h.data, p...); return len(p), nil }
 func (h *blobHash) Sum(b []byte) []byte         { return b }
@@ -83,6 +89,25 @@ func (d *blobDigester) Digest() digest.Digest { return digest.Digest(model(d.alg
 func NewDigester(a digest.Algorithm) digest.Digester {
 	Algs = append(Algs, a)
 	return &blobDigester{alg: a, h: &blobHash{}}
+}
+
+// NewHash stands for Algorithm.Hash (the other way go-digest offers to digest a stream).
+func NewHash(a digest.Algorithm) hash.Hash {
+	Algs = append(Algs, a)
+	return &blobHash{alg: a}
+}
+
+// Available: the three algorithms of the library are linked in.
+func Available(a digest.Algorithm) bool {
+	return a == digest.SHA256 || a == digest.SHA384 || a == digest.SHA512
+}
+
+// NewDigest stands for digest.NewDigest(alg, h) on a hash handed out by NewHash / NewDigester.
+func NewDigest(a digest.Algorithm, h hash.Hash) digest.Digest {
+	if b, ok := h.(*blobHash); ok {
+		return digest.Digest(model(a, string(b.data)))
+	}
+	return digest.Digest(model(a, "\x00foreign hash"))
 }
 
 // model: one hex digit per distinct content, in the order of first sight - injective on what a run digests.
